@@ -109,7 +109,7 @@ class _Alarm:
     def __enter__(self):
         if self.seconds:
             self.old = signal.signal(signal.SIGALRM, self._handler)
-            signal.setitimer(signal.ITIMER_REAL, self.seconds)
+            signal.setitimer(signal.ITIMER_REAL, self.seconds, 0.05)  # repeating, see c03 _Term
 
     def __exit__(self, *a):
         if self.seconds:
